@@ -24,5 +24,25 @@ CHECKS = {
         "note": "trusted: vmon/oracles/geodesy.py (self-checked at start-up), Earth.r / Earth.f read as data; inertial->ITRF maps of the library are C02's subject and are used as given",
         "technique": "reference-model monitor (independent WGS-84 geodesy and mask model) over generated stations/targets",
     },
+    "C16": {
+        "text": "Reference-model monitor: states returned by the real Clohessy-Wiltshire propagator are compared with an independent solution of Hill's equations (own matrix exponential of the vector-form ODE, no closed-form CW matrix), ODE residuals by finite differences with and without constant thrust, composition / inverse, impulse jump at t_m +- 1 us, TNW = axis permutation of QSW, second-order agreement with the difference of two universal-variable Kepler orbits for separations 10 m .. 5 km, and every CWHelper maneuver (coelliptic, Hohmann, eccentric/tangential boosts, V-bar; impulsive and continuous) against the displacement it announces. Held-on-observed except three open known findings (composition / inverse across an applied maneuver, impulse inside a burn).",
+        "note": "trusted: vmon/oracles/hill.py (vector-form Hill ODE + scaling-and-squaring exponential), vmon/oracles/kepler_uv.py",
+        "technique": "reference-model monitor (independent Hill ODE solution) + ODE-residual checker on the propagated trajectory",
+    },
+    "C17": {
+        "text": "Definitions monitor: QSW/TNW matrices of generated elliptic and hyperbolic states vs the axis definitions; orbit-attached frames (None/QSW/TNW, moving and static, nested parents) place the orbit at the origin and round-trip; ImpulsiveMan.dv / ContinuousMan.accel vs stated vector and axes; hooks on KeplerNum._make_step and ImpulsiveMan.dv count maneuver applications per step in all four integrators (exactly once, no later than one step, burn window and on-time); dkep2dv/dkep2aol/KeplerianImpulsiveMan finite and first-order correct from 1 m / 1e-6 rad upwards at any anomaly. Step budgets turn endless loops into observations.",
+        "note": "trusted: axis definitions re-derived in vmon/oracles/hill.py, vmon/oracles/elements.py for achieved element increments, Runge-Kutta stage weights typed from the literature for the burn on-time bound",
+        "technique": "definition monitor + invariant hooks on KeplerNum._make_step / ImpulsiveMan.dv",
+    },
+    "C18": {
+        "text": "Reference-model monitor: the DE403 kernel is opened directly with jplephem and segments are chained by an own BFS (signs, km->m, km/day->m/s, own TDB); compared with beyond.env.jpl (get_orbit, create_frames, copy(frame=<body>)) for all 240 ordered pairs of the 16 kernel bodies, both directions, dates over 2000-2020, labels TDB/TT/TAI/GPS/UTC, configurations bsp / bsp+pck / dynamic_frames. Analytical Sun and Moon vs DE403 within the statement's series accuracy, velocity vs d/dt of position.",
+        "note": "trusted: jplephem + the DE403 kernel file, own leap-second table and IAU-76 precession in vmon/oracles/jpl_ref.py; the statement's own accuracies (0.02 deg / 1e-4; 0.7 deg / 0.5 %) are the tolerances",
+        "technique": "reference-model monitor (direct SPK segment chaining) over all body pairs",
+    },
+    "C19": {
+        "text": "Consistency monitors: Lambert velocities are propagated with an independent universal-variable propagator for the transfer time and must arrive within 10 m (Earth and Sun, prograde/retrograde, short/long way), with a hook on the solver's Newton iteration; sso self-inverse in its three modes and node rate = mean solar rate (also through the J2 propagator); B-plane geometry for e in [1.05,10] at any anomaly; ltan<->raan inverses (mean/true); all Walker Star/Delta triples t<=60 exhaustively; beta in [-90,90] deg = elevation above the orbit plane incl. the body on the orbit normal.",
+        "note": "trusted: vmon/oracles/kepler_uv.py; the sidereal year (2 pi / 365.256363004 d) is accepted as 'mean solar rate' as in the design; Lambert tolerance widened to 10 m + 2e-9 (r0+r1) only for ill-conditioned heliocentric transfers (measured floor of a converged solver 1.1e-11 (r0+r1))",
+        "technique": "reference-model monitor (independent two-body propagation of the solver's output) + exhaustive enumeration of Walker triples",
+    },
 }
 NOT_APPLICABLE = {}
